@@ -62,7 +62,7 @@ def minres(
     # Create space for matmul product, solution
     prod = mm_(rhs)
     if value is not None:
-        prod.mul_(value)
+        prod = prod.mul(value)  # not in place: the closure may return its argument
 
     # Resize shifts
     shifts = _pad_with_singletons(shifts, 0, prod.dim() - shifts.dim() + 1)
@@ -78,9 +78,9 @@ def minres(
     beta_curr = torch.empty_like(beta_prev)
     tmpvec = torch.empty_like(qvec_prev1)
 
-    # Divide by beta_prev
-    zvec_prev1.div_(beta_prev)
-    qvec_prev1.div_(beta_prev)
+    # Divide by beta_prev (not in place: the preconditioner may return its argument)
+    zvec_prev1 = zvec_prev1.div(beta_prev)
+    qvec_prev1 = qvec_prev1.div(beta_prev)
 
     # Variables for the QR rotation
     # 1) Components of the Givens rotations
@@ -131,14 +131,15 @@ def minres(
         # Perform matmul
         prod = mm_(qvec_prev1)
         if value is not None:
-            prod.mul_(value)
+            prod = prod.mul(value)  # not in place: the closure may return its argument
 
         # Get next Lanczos terms
         # --> alpha_curr, beta_curr, qvec_curr
         torch.mul(prod, qvec_prev1, out=tmpvec)
         torch.sum(tmpvec, -2, keepdim=True, out=alpha_curr)
 
-        zvec_curr = prod.addcmul_(alpha_curr, zvec_prev1, value=-1).addcmul_(beta_prev, zvec_prev2, value=-1)
+        # The first update is not in place: prod may be qvec_prev1 itself (closure returning its argument)
+        zvec_curr = torch.addcmul(prod, alpha_curr, zvec_prev1, value=-1).addcmul_(beta_prev, zvec_prev2, value=-1)
 
         qvec_curr = preconditioner(zvec_curr)
         torch.mul(zvec_curr, qvec_curr, out=tmpvec)
@@ -146,8 +147,9 @@ def minres(
         beta_curr.sqrt_()
         beta_curr.clamp_min_(eps)
 
-        zvec_curr.div_(beta_curr)
-        qvec_curr.div_(beta_curr)
+        # Not in place: zvec_curr and qvec_curr are the same tensor if the preconditioner returns its argument
+        zvec_curr = zvec_curr.div(beta_curr)
+        qvec_curr = qvec_curr.div(beta_curr)
 
         # Perform JIT-ted update
         conv = _jit_minres_updates(
@@ -189,7 +191,7 @@ def minres(
 
         # Update terms for next iteration
         # Lanczos terms
-        zvec_prev2, zvec_prev1 = zvec_prev1, prod
+        zvec_prev2, zvec_prev1 = zvec_prev1, zvec_curr
         qvec_prev1 = qvec_curr
         beta_prev, beta_curr = beta_curr, beta_prev
         # Givens rotations terms
